@@ -175,7 +175,9 @@ func c11NewChain(r *vg.Rand, tag uint64) *c11Chain {
 	c.params = tmproto.EvidenceParams{
 		MaxAgeNumBlocks: int64(1 + r.Intn(3)),
 		MaxAgeDuration:  time.Duration(2+r.Intn(8)) * 500 * time.Millisecond,
-		MaxBytes:        1048576,
+		// the pool itself never reads MaxBytes (it bounds a block's evidence, checked in
+		// state.validateBlock); small values make sure nothing in the pool depends on it
+		MaxBytes: []int64{1048576, 1048576, 1, 200, 400, 700, 1000, 2000}[r.Intn(8)],
 	}
 	cp := *types.DefaultConsensusParams()
 	cp.Evidence = c.params
@@ -369,7 +371,11 @@ func (c *c11Chain) conflictingVotes(h int64) (*types.Vote, *types.Vote, types.Mo
 	return c.mkVote(pv, int32(i), h, round, typ, b1, ts), c.mkVote(pv, int32(i), h, round, typ, b2, ts), pv
 }
 
-func c11CopyVote(v *types.Vote) *types.Vote { w := *v; w.Signature = append([]byte{}, v.Signature...); return &w }
+func c11CopyVote(v *types.Vote) *types.Vote {
+	w := *v
+	w.Signature = append([]byte{}, v.Signature...)
+	return &w
+}
 
 func (c *c11Chain) genDupGenuine() c11Ev {
 	h := int64(1 + c.r.Intn(int(c.n)))
